@@ -151,7 +151,20 @@ def oracle(tier, rng, deep=False):
     cells = [(s, d, pn, sp_, fi, sd) for s in tab["solvers"] for d in D for pn in P for sp_ in (False, True) for fi in (False, True) for sd in (True, False)
              if model_validate(tab, s, d, pn, sp_, sd) == "accepted"]
     # every cell compiles fresh numba classes (~2 s): the full matrix of accepted cells takes hours, so both tiers sample it
-    cells = rng.sample(cells, min(len(cells), (70 if not deep else 250) if tier == "quick" else 600))
+    all_cells = cells
+    cells = rng.sample(all_cells, min(len(all_cells), (70 if not deep else 250) if tier == "quick" else 600))
+    # plus one cell of every accepted (solver, datafit) pair and of every accepted (solver, penalty) pair: shape mismatches
+    # between a solver and a component (per-group vs per-feature constants, ...) live in those interactions, and a uniform
+    # sample of 70 cells can miss a whole pair (it did: AndersonCD x block-separable datafits, see DESIGN I.5)
+    strata = {}
+    for c in all_cells:
+        strata.setdefault(("d", c[0], c[1]), []).append(c)
+        strata.setdefault(("p", c[0], c[2]), []).append(c)
+    extra = [rng.choice(v) for _, v in sorted(strata.items())]
+    if tier == "quick" and not deep:
+        extra = [rng.choice(v) for k, v in sorted(strata.items()) if k[0] == "d"] + rng.sample(extra, min(len(extra), 20))
+    seen = set(cells)
+    cells = cells + [c for c in extra if c not in seen]
     failures = []
     ev = 0
     EXPL = ("not compatible", "must implement", "Missing", "positive values", "not supported", "Sparse matrices", "should", "must be", "has no attribute",
